@@ -140,13 +140,19 @@ def mon_c13(case, ots, drained_tail):
         # a pong parked behind a momentarily full buffer must still go out once the transport accepts again
         if v.ended_by(last) or v.hard_error_by(last) or any(o.startswith('wf:') or o.startswith('wpo:') for o in v.ops):
             return None
-        if n < 2 or v.ops[last] != 'f' or v.ops[last - 1] != 'f' or ots[last].res != 'ok' or ots[last - 1].res != 'ok':
+        if n < 2 or v.ops[last] not in ('f', 'r') or v.ops[last - 1] != v.ops[last]:
+            return None
+        want = 'ok' if v.ops[last] == 'f' else 'err:io:wb'     # a read-only tail: nothing more to read, nothing refused on the write side
+        if ots[last].res != want or ots[last - 1].res != want:
+            return None
+        if any((e.startswith('W:') and (':e:' in e or e.split(':')[2] == '-')) or e.startswith('F:e:') for ot in ots[last - 1:] for e in ot.events):
             return None
         pings = [ws.unhx(ot.res[6:]) for op, ot in zip(v.ops, ots) if op == 'r' and ot.res.startswith('ok:PI:')]
         if pings:
             wire_pongs = [f.payload for f in v.frames if f.opcode == 10 and f.complete]
             if pings[-1] not in wire_pongs:
-                return 'pong-lost: ping %s was delivered, the transport accepted again and %d flushes returned Ok, but its pong never reached the wire' % (ws.hx(pings[-1]), drained_tail)
+                return 'pong-lost%s: ping %s was delivered, the transport accepted again and %d %s calls went through unrefused, but its pong never reached the wire' % (
+                    '-read-only' if v.ops[last] == 'r' else '', ws.hx(pings[-1]), drained_tail, 'read' if v.ops[last] == 'r' else 'flush')
         return None
     if v.ended_by(last) or v.hard_error_by(last):
         return None
